@@ -421,7 +421,7 @@ Fixpoint run_tr (c : cfg) (sched : list nat) (s : st) : st * list ev :=
               | None => run_tr c r s
               end
   end.
-Definition run (c : cfg) (sched : list nat) (s : st) : st := fst (run_tr c sched s).
+Definition runs (c : cfg) (sched : list nat) (s : st) : st := fst (run_tr c sched s).
 
 Definition init (c : cfg) (items : list pitem) : st :=
   mk_st items false [] false false [] false [] 0 [] None 0 [] false [] (c_inner c ++ c_outer c) None false.
@@ -442,6 +442,10 @@ Definition cfg_of_skeleton (acc post outer : list string) (cap send : string) (w
   | _, _, _ => None
   end.
 
+(** all five checks of the skeleton *)
+Definition skeleton_ok (acc post outer : list string) (cap send : string) : bool :=
+  lockset_ok acc && post_ok post && outer_ok outer && errchan_ok cap && send_ok send.
+
 Definition accs_locked : list access :=
   [mk_access FRc KR true; mk_access FRc KW true; mk_access FAb KR true; mk_access FAb KW true].
 Definition accs_unlocked : list access :=
@@ -460,7 +464,7 @@ Definition seq_result (blocks : list blk) : res := ROk (wrap32 (sum_rows blocks)
 Fixpoint finish (c : cfg) (fuel : nat) (s : st) : st :=
   match fuel with
   | O => s
-  | S f => if all_done s || panicked s then s else finish c f (run c (seq 0 (c_w c + 3)) s)
+  | S f => if all_done s || panicked s then s else finish c f (runs c (seq 0 (c_w c + 3)) s)
   end.
 
 (* Exchange format, ingest case:
@@ -504,7 +508,7 @@ Definition run_ingest (c : tree) : tree :=
   let items := match d_nat (d_nth 7 c) with O => items0 | S k => insert_at k PReadErr items0 end in
   let cf := mk_cfg_of (if lockf then accs_locked else accs_unlocked) inner_prog outer_prog w w true in
   let fuel := ((List.length rows + w + 4) * (List.length (c_body cf) + 8))%nat in
-  let s := finish cf fuel (run cf sched (init cf items)) in
+  let s := finish cf fuel (runs cf sched (init cf items)) in
   if panicked s then Node [Leaf 2]
   else if negb (main_done s) then Node [Leaf 3]
   else match result s with
